@@ -26,6 +26,8 @@ HOSTS = [
     ('x>{%s}', '<x>', '</x>'),
     ('x*2>{%s}+y', None, None),
     ('{%s}', '', ''),
+    ('x{%s}/', '<x>', '</x>'),          # an element that carries text is never written as a void tag
+    ('p>img{%s}', '<p><img src="" alt="">', '</img></p>'),
 ]
 LINES = ['a', 'b c', '  p ', '', '  ', '$', '$$@-', '*3', 'x>y', '{t}', '${1:f}', '$#', '[k=v]', '\\', 'é', '(', 'a}']
 # (abbreviation, kind, frame)  frame: per-line prefix/suffix, outer prefix/suffix
